@@ -14,9 +14,10 @@
    any congestion controller / timestamp setting) by ANY finite sequence of admissible events
    [ev_ok]:  a segment carries a 32-bit sequence number (any of the 2^32 values relative to the
    window), at most 65535 octets, arbitrary flags / ACK number / window / options; if its signed
-   32-bit distance from RCV.NXT is below 2^30 in absolute value its payload octets are S's at the
-   offsets its sequence number denotes, it does not reach beyond F, and a FIN flag means it ends at
-   F ([seg_ok]; segments farther away may contain anything: they are shown to be rejected);
+   32-bit distance from RCV.NXT is below 2^30 in absolute value its payload octets at or after
+   RCV.NXT are S's at the offsets its sequence number denotes, it does not reach beyond F, and a
+   FIN flag means it ends at F ([seg_ok]; octets below RCV.NXT - e.g. a keep-alive probe's - and
+   segments farther away may contain anything: they are shown to be trimmed or rejected);
    recv sizes are non-negative.  No other hypothesis: no bound on the number of events, on
    consumed octets (sequence numbers wrap), on interleavings.
 
